@@ -273,8 +273,17 @@ pub fn build_handler_set(route: &RouteT, methods: &[(usize, HandlerDesc)]) -> ho
     hs.expect("a Routes item has at least one method")
 }
 
-/// build the real application; `order`: permutation of item indices per application (by app id), or None for "as given"
+/// build the real application; `order`: permutation of item indices per application (by app id)
 pub fn build(app: &AppDesc, order: &dyn Fn(u32, usize) -> Vec<usize>) -> Ohkami {
+    build_opts(app, order, false)
+}
+
+/// `prefer_tuple`: wherever an application's item list is of one type (<= 12 items) and its fangs are all `ActFang`s,
+/// construct it through the real `Ohkami::new((f1.., r1..))` tuple impls instead of the `assemble` hook
+pub fn build_opts(app: &AppDesc, order: &dyn Fn(u32, usize) -> Vec<usize>, prefer_tuple: bool) -> Ohkami {
+    if prefer_tuple && tuple_eligible(app) {
+        return build_with_tuple_api(app, order, true).unwrap();
+    }
     let fangs = build_fangs(&app.fangs);
     let idx = order(app.id, app.items.len());
     let mut items = vec![];
@@ -282,12 +291,19 @@ pub fn build(app: &AppDesc, order: &dyn Fn(u32, usize) -> Vec<usize>) -> Ohkami 
         match &app.items[i] {
             ItemDesc::Routes { route, methods } => items.push(hook::Item::Handlers(build_handler_set(route, methods))),
             ItemDesc::Mount { prefix, app } => {
-                let sub = build(app, order);
+                let sub = build_opts(app, order, prefer_tuple);
                 items.push(hook::Item::By(leak(route_literal(prefix)).By(sub)));
             }
         }
     }
     hook::assemble(fangs, items)
+}
+
+pub fn tuple_eligible(app: &AppDesc) -> bool {
+    !app.items.is_empty()
+        && app.items.len() <= 12
+        && app.fangs.iter().all(|f| !f.raw)
+        && (app.items.iter().all(|i| matches!(i, ItemDesc::Routes { .. })) || app.items.iter().all(|i| matches!(i, ItemDesc::Mount { .. })))
 }
 
 /* ------------------------------ flattening for the reference models ------------------------------ */
@@ -441,19 +457,18 @@ macro_rules! tuple_by_len {
     };
 }
 
-/// `Ohkami::new((r1, .., rn))` through the real tuple impls, for item lists of one type and no fangs
-pub fn build_with_tuple_api(app: &AppDesc, order: &dyn Fn(u32, usize) -> Vec<usize>) -> Option<Ohkami> {
-    if !app.fangs.is_empty() || app.items.is_empty() || app.items.len() > 12 {
+/// `Ohkami::new((f1, .., fk, r1, .., rn))` through the real tuple impls
+pub fn build_with_tuple_api(app: &AppDesc, order: &dyn Fn(u32, usize) -> Vec<usize>, nested_too: bool) -> Option<Ohkami> {
+    if !tuple_eligible(app) {
         return None;
     }
     let idx = order(app.id, app.items.len());
+    let fang_ids: Vec<u32> = app.fangs.iter().map(|f| f.id).collect();
     if app.items.iter().all(|i| matches!(i, ItemDesc::Routes { .. })) {
         let v: Vec<hook::HandlerSet> = idx.iter().map(|&i| match &app.items[i] { ItemDesc::Routes { route, methods } => build_handler_set(route, methods), _ => unreachable!() }).collect();
-        Some(tuple_by_len!(v))
-    } else if app.items.iter().all(|i| matches!(i, ItemDesc::Mount { .. })) {
-        let v: Vec<hook::ByAnother> = idx.iter().map(|&i| match &app.items[i] { ItemDesc::Mount { prefix, app } => leak(route_literal(prefix)).By(build(app, order)), _ => unreachable!() }).collect();
-        Some(tuple_by_len!(v))
+        Some(if fang_ids.is_empty() { tuple_by_len!(v) } else { crate::tuples_gen::tuple_fangs_handler_sets(&fang_ids, v) })
     } else {
-        None
+        let v: Vec<hook::ByAnother> = idx.iter().map(|&i| match &app.items[i] { ItemDesc::Mount { prefix, app } => leak(route_literal(prefix)).By(build_opts(app, order, nested_too)), _ => unreachable!() }).collect();
+        Some(if fang_ids.is_empty() { tuple_by_len!(v) } else { crate::tuples_gen::tuple_fangs_mounts(&fang_ids, v) })
     }
 }
